@@ -181,7 +181,7 @@ def _work(job):
             "cases": fr.cases, "gen_s": round(fr.gen_s, 3), "wall_s": round(time.time() - t0, 3),
             "where": src.where() if src is not None and hasattr(src, "where") else "",
             "sha": getattr(src, "sha", ""), "externals": sorted(fr.used_externals),
-            "callees": sorted(fr.used_callees), "covers": ["%s|%s" % k for k in fr.covers],
+            "callees": sorted(fr.used_callees), "covers": [[k[0], k[1]] for k in fr.covers],
             "obligations": obs}
 
 
@@ -242,6 +242,25 @@ def _lengths(params):
             for x in v.fields.values():
                 walk(x, depth + 1)
     for v in params.values():
+        walk(v, 0)
+    return out
+
+
+def _strings(params):
+    from .sym import VStr, VRec
+    out, seen = [], set()
+
+    def walk(v, depth):
+        if id(v) in seen or depth > 3:
+            return
+        seen.add(id(v))
+        if isinstance(v, VStr) and v.const() is None:
+            out.append(v.t)
+        elif isinstance(v, VRec):
+            for k, x in v.fields.items():
+                if k in ("name", "attname", "key", "alias") or depth == 0:
+                    walk(x, depth + 1)
+    for k, v in params.items():
         walk(v, 0)
     return out
 
@@ -307,6 +326,19 @@ def make_replay(w, prop, res, ob, tier):
                 if small == z3.sat:
                     break
                 s.pop()
+        if verdict == z3.sat and params:
+            # ... and plain names: symbolic strings among the parameters (field names, keys) drawn from a few identifiers
+            strs = _strings(params)
+            if strs:
+                s.push()
+                s.add(*[z3.Or(*[t == z3.StringVal(c) for c in ("a", "b", "c", "d")]) for t in strs])
+                try:
+                    nice = s.check()
+                except z3.Z3Exception:
+                    nice = z3.unknown
+                if nice != z3.sat:
+                    s.pop()
+                    s.check()
         if verdict == z3.sat:
             m = s.model()
             model_txt = str(m)[:4000]
@@ -478,6 +510,35 @@ def report(prop, tier, seed, results, w, gen_wall, t0):
                           "exits_reached": len(r.get("covers", []))})
         externals |= set(r.get("externals", []))
         own = False
+        if r["kind"] == "contract" and r["status"] == "ok":
+            # vacuity guard: a type case that declares postconditions must reach a normal exit on some path (a case that can only
+            # raise -- every postcondition is the literal False -- is exempt, as are cases listed under `raises_only_cases`)
+            con0 = w.contracts[tuple(r["key"])]
+            covered = {}
+            for cv in r.get("covers", []):
+                cn_, ex_ = cv if isinstance(cv, (list, tuple)) else (cv.partition("|")[0], cv.partition("|")[2])
+                covered.setdefault(cn_, []).append(ex_)
+            for cn_ in r.get("cases", []):
+                rets_ = [c for c in con0.returns_for(cn_).values() if c.strip() != "False"]
+                if not rets_ or cn_ in (getattr(con0, "raises_only_cases", None) or ()):
+                    continue
+                exits_ = covered.get(cn_, [])
+                declared_ = set(con0.raises_for(cn_))
+
+                def _anticipated(e):
+                    # an exceptional exit the contract speaks about: an explicit `raise` statement of the body, or an exception
+                    # of a class for which the case declares exceptional postconditions
+                    if e.startswith("raise#"):
+                        return bool(declared_)
+                    if e.startswith("raise:"):
+                        nm = e.split(":")[1].lstrip("<=")
+                        return nm in declared_ or nm.rpartition(".")[2] in {d.rpartition(".")[2] for d in declared_}
+                    return False
+                if any(_anticipated(e) for e in exits_):
+                    continue          # a case that (also) ends in a declared exceptional outcome is not vacuous
+                if not any(e.startswith(("return", "prefix-end", "region-end", "selfcomp")) for e in exits_):
+                    undecided.append("%s: VACUOUS: type case %r declares postconditions but no path reaches a normal exit "
+                                     "(exits reached: %s)" % (r["key"], cn_, covered.get(cn_, [])[:4]))
         if r["kind"] == "contract":
             con_ = w.contracts[tuple(r["key"])]
             tags_ = set(con_.props)
@@ -514,12 +575,22 @@ def report(prop, tier, seed, results, w, gen_wall, t0):
         print("%s [%d failing obligation(s) match this entry]" % (line, known_hits.get(line, 0)))
     vio_lines = []
     seen_v = set()
+    full_replays = {}          # function -> full replays made so far (each one re-generates and re-solves the obligation)
+    REPLAY_BUDGET = int(os.environ.get("VERIF_REPLAYS_PER_FUNCTION", "6"))
     for r, ob in violations:
         if ob["oid"] in seen_v:
             continue
         seen_v.add(ob["oid"])
+        fkey = tuple(r["key"]) if isinstance(r["key"], (list, tuple)) else r["key"]
         try:
-            path, status = make_replay(w, prop, r, ob, tier)
+            if full_replays.get(fkey, 0) >= REPLAY_BUDGET:
+                # many obligations of one function fail (a broken loop body fails in every type case): the first ones carry a
+                # replayed input; the others are reported with obligation, clause and solver verdict only
+                path, status = write_min_replay(prop, ob, "replay budget of %d per function used up: see the first replays of this "
+                                                          "function in the same directory" % REPLAY_BUDGET), "no-failing-input-found"
+            else:
+                full_replays[fkey] = full_replays.get(fkey, 0) + 1
+                path, status = make_replay(w, prop, r, ob, tier)
         except Exception as e:  # noqa
             path, status = write_min_replay(prop, ob, "replay machinery failed: %s: %s" % (type(e).__name__, e)), "no-failing-input-found"
         tail = "" if status == "confirmed-on-real-code" else " no-failing-input-found"
